@@ -236,6 +236,7 @@ class Globals(object):
 
     def __init__(self, L):
         self.items = []
+        self.holders = []       # (name, class or function object) whose own attributes are state
         seen = set()
         for mname, mod in sorted(L.items()):
             if mod is None:
@@ -246,6 +247,16 @@ class Globals(object):
                 key = (mname, n)
                 self.items.append((key, mod, n, id(v) in seen))
                 seen.add(id(v))
+            # hidden module-level state: class-level data attributes and attributes of function objects
+            for n, v in sorted(vars(mod).items()):
+                if inspect.isclass(v) and getattr(v, '__module__', None) == mod.__name__:
+                    self.holders.append(('%s.%s' % (mname, n), v))
+                    for mn, mv in sorted(vars(v).items()):
+                        fn = getattr(mv, '__func__', mv)
+                        if inspect.isfunction(fn):
+                            self.holders.append(('%s.%s.%s' % (mname, n, mn), fn))
+                elif inspect.isfunction(v) and getattr(v, '__module__', None) == mod.__name__:
+                    self.holders.append(('%s.%s' % (mname, n), v))
         self.base = self.snap()
 
     def digest(self, v):
@@ -259,10 +270,18 @@ class Globals(object):
         for key, mod, n, dup in self.items:
             v = getattr(mod, n, None)
             out[key] = (id(v), self.digest(v) if not dup else None)
+        for name, h in self.holders:
+            if inspect.isclass(h):
+                st = {k: v for k, v in vars(h).items()
+                      if not (k.startswith('__') or inspect.isroutine(getattr(v, '__func__', v)) or isinstance(v, property))}
+            else:
+                st = dict(vars(h))
+            if st:
+                out[(name, '<attributes>')] = (0, self.digest(canon(st)))
         return out
 
     def changed(self, before, after):
-        return ['%s.%s' % k for k in before if before[k] != after.get(k)]
+        return ['%s.%s' % k for k in set(before) | set(after) if before.get(k) != after.get(k)]
 
 
 # ----------------------------------------------------------------------------- calling
@@ -500,6 +519,8 @@ def receiver_spec(rng, cls):
     if cls == 'Angle':
         return g_angle(rng)
     if cls == 'Epoch':
+        if rng.random() < 0.25:
+            return g_epoch(rng, -500, 1582)       # Julian-calendar dates
         return g_epoch(rng)
     if cls == 'Interpolation':
         return interp_spec(rng)
@@ -619,7 +640,8 @@ def special_args(rng, fq):
     if fq == 'CurveFitting.general_fitting':
         return ['<recv>', {'callable': 'x2'}, {'callable': 'x'}, {'callable': 'one'}]
     if fq == 'Epoch.get_doy':
-        return [rng.randint(1600, 2200), rng.randint(1, 12), rng.uniform(1, 28)]
+        y = rng.choice([rng.randint(1600, 2200), rng.randint(-500, 1582), 1500, 1000, 4, 1582, 1583, 2000, 1900])
+        return [y, rng.randint(1, 12), rng.uniform(1, 28)]
     if fq == 'Epoch.doy2date':
         return [rng.randint(1600, 2200), rng.uniform(1, 365)]
     if fq == 'Epoch.tt2ut':
@@ -1207,6 +1229,18 @@ def generate(ctx, shard=0, nshards=1):
         for cls, mk in (('Angle', g_angle), ('Epoch', g_epoch), ('Interpolation', interp_spec), ('CurveFitting', curve_spec)):
             for _ in range(ctx.n(4, 30)):
                 ck.copy_check(cls, mk(rng), rng)
+        # the translator itself on the Python shapes of hidden module-level state (class-level dicts, function
+        # attributes, `global`, mutating methods of module containers, setattr, mutable defaults)
+        try:
+            sys.path.insert(0, os.path.join(ROOT, 'tools'))
+            import py2effects
+            for (q, want, got) in py2effects.selftest():
+                ck.pred('translator_selftest', want == got, {'kind': 'selftest', 'fn': q, 'args': [], 'sig': 'selftest'},
+                        'expected %s, the analysis %s it' % ('accept' if want else 'reject', 'accepts' if got else 'rejects'),
+                        'skeleton')
+        except Exception as e:   # noqa
+            ck.pred('translator_selftest', False, {'kind': 'selftest', 'fn': 'py2effects.selftest', 'args': [], 'sig': 'selftest'},
+                    repr(e), 'skeleton')
         ctx.sample({'call': 'l=[1.0]; Angle(l, radians=True); l', 'expected': [1.0]})
         ctx.sample({'call': 'a=Angle(40); b=a; a+=Angle(1); b()', 'expected': 40.0})
     # two-call histories: f(a), g(b), f(a) over ordered pairs from a random subset
@@ -1282,6 +1316,8 @@ def replay(case):
         ck.out_of_range(f, inp['args'], 'replay')
     elif kind == 'near':
         ck.near_history(f, inp['args'], None)
+    elif kind == 'selftest':
+        pass
     elif kind == 'reuse':
         st = [(byq[q], a) for (q, a) in inp['steps']]
         first = st[0] if st and byq[inp['steps'][0][0]]['kind'] == 'pure' else None
